@@ -24,10 +24,10 @@
 (*   StaleEvict    an insertion that evicts reuses the evicted slot        *)
 (*                 without storing the new value                           *)
 (***************************************************************************)
-EXTENDS KeyCache
+EXTENDS KeyPoints
 
-CONSTANTS Cap, Dev
-VARIABLES cache
+CONSTANTS Calls, Cap, Dev
+VARIABLES cache, last
 vars == <<cache, last>>
 
 Abs == INSTANCE KeyCache WITH memo <- <<>>
